@@ -64,6 +64,12 @@ MUTANTS = [
     ("jsonld-expanded-synonym-without-prefix", "Writers.tla", "[k \\in 1..Len(e) |-> <<e[k][1], <<IF expand THEN \"pdict\" ELSE \"str\", e[k][2]>>>>]",
      "[k \\in 1..Len(e) |-> <<e[k][1], IF expand /\\ k > 1 THEN <<\"other\">> ELSE <<IF expand THEN \"pdict\" ELSE \"str\", e[k][2]>>>>]", "other",
      ("mc/MC_IO.tla", "ISpec", {"FoldMap": "<- Fold", "DefaultDelim": "<- MCDefaultDelim", "MaxRecs": 2}), ["Inv_C14"], {}),
+    # the world with files (System.tla): snapshot semantics, frame of the I/O steps, C14 along histories
+    ("read-gives-current-source", "System.tla", "LET f == files[j]  r == ReadFile(f) IN",
+     "LET f == files[j]  r == ReadFile([f EXCEPT !.doc = DocOf(f.fmt, f.syn, f.expand, convs[f.srci])]) IN", "world", "System", [], {"MaxSteps": 4, "MaxConvs": 2}),
+    ("write-drops-pattern-index-of-source", "System.tla", "  /\\ UNCHANGED convs\n\n\\* coverage", "  /\\ convs' = [convs EXCEPT ![i].pat = {}]\n\n\\* coverage", "world", "System", [], {}),
+    ("shacl-forgets-patterns", "Writers.tla", "LET r == c.recs[i]  pat == IF HasPat(r) THEN r.pat ELSE NoPat IN", "LET r == c.recs[i]  pat == NoPat IN", "world", "System", [], {}),
+    ("epm-reads-with-default-delimiter", "Writers.tla", "f.fmt = \"epm\" -> ReadEPM(f.doc, f.delim)", "f.fmt = \"epm\" -> ReadEPM(<<>>, f.delim)", "world", "System", [], {}),
 ]
 
 
